@@ -67,11 +67,24 @@ static void feed(const seed_t *s, const uint8_t *m, size_t n) { uint8_t *hb = (u
 /* structure-aware: every TLV header found by walking the seed (recursively through constructed types and through OCTET/BIT STRING wrappers that parse as TLVs) */
 typedef struct { size_t off, hlen, vlen; } tlvpos; static tlvpos TP[600]; static int NTP;
 static void walk(const uint8_t *base, const uint8_t *p, size_t n, int depth) { der_cur c = { p, n }; while (c.n && NTP < 600 && depth < 12) { const uint8_t *st = c.p; int tag; const uint8_t *v; size_t vl, h; if (!der_tlv(&c, &tag, &v, &vl, &h)) return; TP[NTP++] = (tlvpos){ (size_t)(st - base), h, vl }; if ((tag & 0x20) || tag == 0x04) { der_cur t = { v, vl }; int t2; const uint8_t *v2; size_t l2; if ((tag & 0x20) || (vl > 2 && der_tlv(&t, &t2, &v2, &l2, NULL) && t.n == 0)) walk(base, v, vl, depth + 1); } else if (tag == 0x03 && vl > 3) { der_cur t = { v + 1, vl - 1 }; int t2; const uint8_t *v2; size_t l2; if (der_tlv(&t, &t2, &v2, &l2, NULL) && t.n == 0) walk(base, v + 1, vl - 1, depth + 1); } } }
+/* tree form for list-growth / element-deletion mutants: every TLV that is an element of a constructed value (also inside OCTET STRING /
+ * BIT STRING wrappers) is emitted r times, r in REPS, with all enclosing lengths re-encoded */
+typedef struct { int tag, kind /* 0 leaf, 1 constructed, 2 octet-string wrapper, 3 bit-string wrapper */, child, next; const uint8_t *v; size_t vl; } nd_t; static nd_t ND[900]; static int NND;
+static int tparse(const uint8_t *p, size_t n, int depth) { int first = -1, prev = -1; der_cur c = { p, n }; while (c.n) { int tag; const uint8_t *v; size_t vl; if (NND >= 900 || !der_tlv(&c, &tag, &v, &vl, NULL)) return -2; int me = NND++; ND[me] = (nd_t){ tag, 0, -1, -1, v, vl }; if (prev >= 0) ND[prev].next = me; else first = me; prev = me;
+		if (depth < 14) { int save = NND, ch = -2; if (tag & 0x20) { ch = vl ? tparse(v, vl, depth + 1) : -1; if (ch != -2) { ND[me].kind = 1; ND[me].child = ch; } } else if (tag == 0x04 && vl > 2) { ch = tparse(v, vl, depth + 1); if (ch >= 0 && (ND[ch].tag & 0x20)) { ND[me].kind = 2; ND[me].child = ch; } else ch = -2; } else if (tag == 0x03 && vl > 3 && v[0] == 0) { ch = tparse(v + 1, vl - 1, depth + 1); if (ch >= 0 && (ND[ch].tag & 0x20)) { ND[me].kind = 3; ND[me].child = ch; } else ch = -2; } if (ch == -2) NND = save; } }
+	return first; }
+static size_t temit(int idx, uint8_t *out, size_t cap, int target, int reps);
+static size_t temit_list(int first, uint8_t *out, size_t cap, int target, int reps) { size_t k = 0; for (int i = first; i >= 0; i = ND[i].next) { int r = (i == target) ? reps : 1; for (int j = 0; j < r; j++) { size_t n = temit(i, out + k, cap - k, -1, 1); if (i != target) n = temit(i, out + k, cap - k, target, reps); if (n == (size_t)-1) return n; k += n; } } return k; }
+static size_t temit(int idx, uint8_t *out, size_t cap, int target, int reps) { const nd_t *d = &ND[idx]; if (d->kind == 0) { if (d->vl + 8 > cap) return (size_t)-1; return der_put_tlv(out, d->tag, d->v, d->vl); }
+	uint8_t *tmp = (uint8_t *)malloc(cap); size_t pre = d->kind == 3 ? 1 : 0; if (pre) tmp[0] = 0; size_t n = temit_list(d->child, tmp + pre, cap - pre - 8 > cap ? 0 : cap - pre - 8, target, reps); if (n == (size_t)-1 || n + pre + 8 > cap) { free(tmp); return (size_t)-1; } size_t r = der_put_tlv(out, d->tag, tmp, n + pre); free(tmp); return r; }
 static void mutate_seed(const seed_t *s) {
 	static uint8_t m[80000]; static const uint8_t SUB[] = { 0x00, 0x01, 0x7f, 0x80, 0x81, 0xfe, 0xff }; size_t n = s->n; int step = (!vh_thorough && n > 2500) ? 3 : 1;
 	if (vh_next()) feed(s, s->d, n);
 	for (size_t off = 0; off < n; off += step) { if (!vh_next()) continue; for (int k = 0; k < 9; k++) { memcpy(m, s->d, n); uint8_t v = k < 7 ? SUB[k] : (k == 7 ? s->d[off] ^ 0x01 : s->d[off] ^ 0x80); if (v == s->d[off]) continue; m[off] = v; feed(s, m, n); } }
 	for (size_t k = 0; k < n; k += step) { if (!vh_next()) continue; feed(s, s->d, k); }
+	if (s->der) { NND = 0; int root = tparse(s->d, n, 0); static const int REPS[] = { 0, 2, 3, 7, 8, 9, 16, 17, 32, 33, 64, 65, 128, 129 }; static uint8_t big[66000];
+		if (root >= 0) { size_t chk = temit_list(root, big, sizeof big, -1, 1); if (chk != n || memcmp(big, s->d, n)) vh_obs("tree re-encoding of seed %s is not the identity (non-minimal lengths?)", s->name);
+			for (int t = 0; t < NND; t++) for (int r = 0; r < 14; r++) { if (!vh_next()) continue; size_t k = temit_list(root, big, sizeof big, t, REPS[r]); if (k == (size_t)-1 || k > 65000) continue; feed(s, big, k); } } }
 	if (s->der) { NTP = 0; walk(s->d, s->d, n, 0); for (int t = 0; t < NTP; t++) { if (!vh_next()) continue; size_t off = TP[t].off, h = TP[t].hlen, L = TP[t].vlen, rem = n - off - h;
 			/* replacement length encodings for this header */ uint8_t enc[11][6]; size_t el[11]; int ne = 0;
 #define LENC(...) do { uint8_t t_[] = { __VA_ARGS__ }; memcpy(enc[ne], t_, sizeof t_); el[ne++] = sizeof t_; } while (0)
